@@ -65,6 +65,8 @@ enum Val {
 }
 
 const FIELD_NAMES: &[&str] = &["tag", "fields", "self_", "acc", "s", "x", "y", "name", "json_escape_string", "to_json", "to_string", "func", "map", "range", "var", "len", "value", "id", "default", "a1", "b_2"];
+/// field / payload counts of wide definitions
+const WIDTHS: &[usize] = &[5, 6, 7, 8, 9, 10, 11, 12, 13, 15, 16, 17, 20, 21, 22, 24, 31, 32, 33, 40, 48, 63, 64, 65];
 const HOSTILE: &[char] = &[
     'a', 'Z', '7', ' ', '"', '\\', '/', '\n', '\t', '\r', '\u{8}', '\u{c}', '\u{1}', '\u{7}', '\u{b}', '\u{1b}', '\u{1f}', '\u{7f}', '\u{a0}', '\u{ad}', '\u{2028}', '\u{2029}', '\u{feff}', '\u{e000}', 'é', '中', '\u{1F600}', '\u{fffe}', '{', '}', '[', ']', ':', ',', '%', '\'', '<', '>', '&',
 ];
@@ -110,8 +112,13 @@ impl<'a> Gen<'a> {
                 _ => (true, true),
             };
             self.derives.push(derives);
+            // one definition in five is wide: field / payload / variant counts around powers of two and other
+            // sizes at which a derive that builds its body in groups, or a pass that treats long concatenation
+            // chains specially, would change behaviour (added after a seeded change that lost the last pieces of
+            // bodies with more than 32 pieces)
+            let wide = self.rng.chance(1, 5);
             if self.rng.bool() {
-                let nf = self.rng.below(5);
+                let nf = if wide { *self.rng.pick_ref(WIDTHS) } else { self.rng.below(5) };
                 let mut fields: Vec<(String, FT)> = Vec::new();
                 for _ in 0..nf {
                     let mut name = self.rng.pick_ref(FIELD_NAMES).to_string();
@@ -123,10 +130,17 @@ impl<'a> Gen<'a> {
                 }
                 self.defs.push(Def::Struct { name: format!("Sd{}", k), fields });
             } else {
-                let nv = 1 + self.rng.below(4);
+                let nv = if wide && self.rng.bool() { 5 + self.rng.below(12) } else { 1 + self.rng.below(4) };
+                let wide_variant = if wide { 1 + self.rng.below(nv.max(2) - 1) } else { usize::MAX };
                 let mut variants = Vec::new();
                 for v in 0..nv {
-                    let np = if v == 0 { 0 } else { self.rng.below(4) };
+                    let np = if v == 0 {
+                        0
+                    } else if v == wide_variant {
+                        *self.rng.pick_ref(WIDTHS)
+                    } else {
+                        self.rng.below(4)
+                    };
                     // recursion only in non-first variants, so that values are finite
                     let payload: Vec<FT> = (0..np).map(|_| self.field_type(k, Some(k), derives)).collect();
                     variants.push((format!("V{}", v), payload));
@@ -360,6 +374,24 @@ fn defs_src(defs: &[Def], derives: &[(bool, bool)]) -> String {
 fn faithful_program(c: &mut Case, rng: &mut Rng, label: &str, sample: bool) {
     let mut g = Gen { rng, defs: Vec::new(), derives: Vec::new() };
     g.definitions();
+    for d in &g.defs {
+        let w = match d {
+            Def::Struct { fields, .. } => fields.len(),
+            Def::Enum { variants, .. } => variants.iter().map(|(_, p)| p.len()).max().unwrap_or(0),
+        };
+        if w >= 33 {
+            c.count("definitions_width_33_or_more", 1);
+        } else if w >= 11 {
+            c.count("definitions_width_11_to_32", 1);
+        } else if w >= 5 {
+            c.count("definitions_width_5_to_10", 1);
+        }
+        if let Def::Enum { variants, .. } = d {
+            if variants.len() >= 5 {
+                c.count("enums_with_5_or_more_variants", 1);
+            }
+        }
+    }
     let mut src = defs_src(&g.defs, &g.derives);
     src.push_str("fn main() -> unit {\n");
     // (kind, expected) per framed output
@@ -575,7 +607,7 @@ fn run(ctx: &mut Ctx) {
         println!("replay: the replay file stores the full source");
         return;
     }
-    let n = tier.pick(64u64, 2_400u64) / ctx.nshards as u64 + 1;
+    let n = tier.pickn(64u64, 2_400u64) / ctx.nshards as u64 + 1;
     for j in 0..n {
         let mut rng = Rng::keyed(seed, "c18", ctx.shard as u64, j);
         let label = format!("faithful/{}/{}", ctx.shard, j);
